@@ -77,14 +77,16 @@ func CounterListed(cfg *telemetry.UploadConfig, prog, name string) (rate float64
 	if p == nil {
 		return 0, false
 	}
+	// A name may be listed several times; it is approved at X if some listing's rate is not below X,
+	// so the effective rate is the largest.
 	for _, c := range p.Counters {
 		for _, e := range ExpandCounter(c.Name) {
-			if e == name {
-				return c.Rate, true
+			if e == name && (!ok || c.Rate > rate) {
+				rate, ok = c.Rate, true
 			}
 		}
 	}
-	return 0, false
+	return rate, ok
 }
 
 // StackListed is the analogue for stack counters (matched on the head).
@@ -98,11 +100,11 @@ func StackListed(cfg *telemetry.UploadConfig, prog, fullName string) (rate float
 		head = fullName[:i]
 	}
 	for _, s := range p.Stacks {
-		if s.Name == head {
-			return s.Rate, true
+		if s.Name == head && (!ok || s.Rate > rate) {
+			rate, ok = s.Rate, true
 		}
 	}
-	return 0, false
+	return rate, ok
 }
 
 // LocalFile is the content of one expired counter file as the reference sees it.
